@@ -86,3 +86,34 @@ func TestVerifWitnessC12CountSevenBit(t *testing.T) {
 		t.Errorf("WriteTo reports %d bytes, the destination accepted %d", n, buf.Len())
 	}
 }
+
+// C12: a producer that fails while the message is rendered for signing (S/MIME pre-render inside WriteTo) and
+// works afterwards. The pre-render's error was dropped: WriteTo signed the truncated rendering and reported
+// success.
+func TestVerifWitnessC12PreRenderProducerFailure(t *testing.T) {
+	keypair, err := getDummyKeyPairTLS()
+	if err != nil {
+		t.Fatal(err)
+	}
+	m := NewMsg()
+	_ = m.From("a@b.c")
+	_ = m.To("d@e.f")
+	m.Subject("s")
+	calls := 0
+	m.SetBodyWriter(TypeTextPlain, func(w io.Writer) (int64, error) {
+		calls++
+		if calls == 1 {
+			return 0, errors.New("producer failed")
+		}
+		n, werr := w.Write([]byte("hello"))
+		return int64(n), werr
+	})
+	if err = m.SignWithTLSCertificate(keypair); err != nil {
+		t.Fatal(err)
+	}
+	out := &bytes.Buffer{}
+	_, err = m.WriteTo(out)
+	if err == nil {
+		t.Errorf("a body producer failed during WriteTo (call 1 of %d) and WriteTo reported success", calls)
+	}
+}
